@@ -87,6 +87,25 @@ def gen_union(rnd):
             if rnd.random() < 0.5:
                 offset = rnd.randint(0, 4)
         q = ["union", [], q, branches[i], distinct, [], limit, offset, {}]
+    if rnd.random() < 0.15:
+        # the chain under ONE WITH whose every branch reads a CTE holding its table (the WITH of a chain belongs to all branches,
+        # however the chain nests)
+        import copy
+        q = copy.deepcopy(q)
+        ctes = []
+
+        def via_cte(n):
+            if isinstance(n, list):
+                if n and n[0] == "table" and isinstance(n[1], list) and len(n[1]) == 1 and n[1][0].startswith("t") and not n[2]:
+                    name = "w_" + n[1][0]
+                    if name not in [c[0] for c in ctes]:
+                        ctes.append([name, select([["star"]], table(n[1][0]))])
+                    n[1], n[3] = [name], name
+                    return
+                for x in n:
+                    via_cte(x)
+        via_cte(q)
+        q[1] = ctes
     return mk_case(doc, q, mode="seq", tag="union%d" % nb, num_kind=rnd.choice(["int", "int64", "int32", "uint8", "float32"]) if rnd.random() < 0.1 else None)
 
 
